@@ -364,7 +364,9 @@ def check(run):
     corpus = os.path.join(core.VERIF, "corpus", "corrupt.txt")
     pre = []
     if os.path.exists(corpus):
-        pre = [l for l in open(corpus).read().split("\n") if l.strip() and not l.startswith("#")]
+        sd = os.path.join(run.work, "seeds")
+        pre = [l.replace("$SEEDS", sd) for l in open(corpus).read().split("\n")
+               if l.strip() and not l.startswith("#")]
     # ---- files ----
     cases = enumerate_cases(seeds, run.rng, quick)
     if quick:
